@@ -92,7 +92,7 @@ def report_proofs(rep, pr, pid):
                        'broken': 'theorems %s at %s' % (pr['theorems'], pr['failed']), 'log': pr['log']})
 
 # ------------------------------------------------------------------ generators per property
-STRF = ['strcpy_s', 'strcat_s', 'strncpy_s', 'strncat_s', 'wcscpy_s']
+STRF = ['strcpy_s', 'strcat_s', 'strncpy_s', 'strncat_s', 'wcscpy_s', 'wcscat_s', 'wcsncpy_s', 'wcsncat_s']
 MEMF = ['memcpy_s', 'memmove_s', 'memset_s', 'memzero_s', 'memcpy16_s', 'memmove16_s', 'memset16_s', 'memzero16_s',
         'memcpy32_s', 'memmove32_s', 'memset32_s', 'memzero32_s']
 
@@ -111,7 +111,7 @@ def gen_copy(pid, seed, consts, tier):
         fl = ('R', 'L') if pid in ('C01', 'C02') else ('R',)
         pri = ('garbage', 'half', 'empty') if pid != 'C03' else ('garbage',)
         g.str_sep(ofun, small + switch, lens, bos, fl, pri + (('full1',) if pid in ('C06', 'C08', 'C01') else ()), (None,))
-        g.str_sep(nfun, small + switch, lens, bos, fl, pri, ('lt', 'eq', 'gt', 'zero') + (('big', 'max') if pid in ('C05', 'C04', 'C03') else ()))
+        g.str_sep(nfun, small + switch, lens, bos, fl, pri, ('lt', 'eq', 'gt', 'zero') + (('big', 'max') if pid in ('C05', 'C04', 'C03') else (('big',) if pid in ('C01', 'C02') else ())))
         # RSIZE_MAX-sized operands: the extracted model is quadratic in the number of element stores, keep these few
         g.str_sep(narrow[:2], [rmax], lambda d: [3], ('unk',), ('R',), ('garbage',), (None,))
         g.str_sep(narrow[:1], [rmax], lambda d: [d - 1] if thorough else [d // 4], ('unk',), ('R',), ('garbage',), (None,), orders=('ds',))
@@ -139,6 +139,7 @@ def projection_for(pid, consts):
         return o.blocks[b][off:off + nb] if b < len(o.blocks) else None
     def p(c, o):
         flt = o.fault != '-'
+        if flt and pid != 'C01': return (True,)      # a faulting call has no further outcome to compare
         if pid == 'C01': return (flt, None if flt else tuple(o.blocks))
         if pid == 'C02': return flt
         if pid == 'C03':
